@@ -14,15 +14,19 @@
 (***************************************************************************)
 EXTENDS TLC, Json, Sequences
 VARIABLE c
-Cases == [parentUncles : BOOLEAN,                     \* the parent header includes uncles (EIP-100: factor 2 instead of 1)
+Cases0 == [parentUncles : BOOLEAN,                     \* the parent header includes uncles (EIP-100: factor 2 instead of 1)
           childUncles : BOOLEAN,                      \* the header itself includes uncles (irrelevant to its own difficulty)
           dt : {"1s", "9s", "18s", "1000s"},         \* seconds after the parent: (2|1) - dt/9, floored at -99
           parentDiff : {"minimum", "large"},          \* 131072 (results are floored there) or 2^40
+          chain : {"main", "private"},                \* the client's chain id: 1, or 1337 (any chain id but Rinkeby's is a proof-of-work chain)
           claim : {"right", "otheruncle", "plus1", "parent"}]   \* the difficulty the header carries: the formula's value, the value for the
                                                       \* other uncle flag, the value plus one, the parent's difficulty
+(* under chain id 1 the whole product, under chain id 1337 one time step and one parent difficulty *)
+Cases == {x \in Cases0 : x.chain = "main" \/ (x.dt = "9s" /\ x.parentDiff = "large")}
 (* genuinely sealed main-net headers (the repository's test data): the child of the header the client was created with is *)
 (* accepted as it is, and refused when its seal or its difficulty is touched                                             *)
-RealCases == [fam : {"real"}, mut : {"none", "nonce", "mixdigest", "difficulty", "second"}]   \* "second": the second child after the first
+RealCases == [fam : {"real"}, chain : {"main"}, mut : {"none", "nonce", "mixdigest", "difficulty", "second"}]   \* "second": the second child after the first
+             \cup [fam : {"real"}, chain : {"ropsten", "private"}, mut : {"none", "nonce"}]                    \* the same headers under chain ids 3 and 1337
 (* the stage at which the header is refused; "same" marks cases in which the perturbed value happens to equal the right one *)
 Stage(x, same) == IF x.claim = "right" \/ same THEN "seal" ELSE "difficulty"
 Init == c \in Cases \cup RealCases
